@@ -14,7 +14,7 @@ func init() {
 	property("C20",
 		"Static conformance of the rejection mechanisms: (a) the break/continue scope stacks are pushed before and popped after the body parse of while, do-while (both stacks) and switch (break stack only) on every non-error path, and their helper functions touch only their own stack; (b) break/continue nodes are returned only under the non-nil test of the stack top, which is what they record, continue additionally only directly before '}', errors located at the keyword; (c) duplicate case values, a second default and a redefined constant are rejected by a check-before-insert on the same key that is stored, with the error located at the duplicate; (d) text and movement name clashes are rejected by check-before-insert over inline and explicit definitions after all hoisting; (e) every script label is checked against all generated chunk labels of the script and all text labels before it is rendered.",
 		[]string{"errors returned by the parser propagate to ParseProgram (rule C18.d), so an unbalanced stack on an error path is never observed", "go/ssa lowering is faithful to the source"},
-		"C20.a", "C20.b", "C20.c", "C20.d", "C20.e")
+		"C20.a", "C20.b", "C20.c", "C20.d", "C20.e", "C18.d")
 
 	register(&Rule{ID: "C20.a", Doc: "scope stacks: push before / pop after the body parse, right stacks, helpers touch only their stack", Floor: 14, Run: c20a})
 	register(&Rule{ID: "C20.b", Doc: "break/continue only under a non-empty scope stack; node records the stack top; errors at the keyword", Floor: 6, Run: c20b})
@@ -479,6 +479,18 @@ func c20d(c *Ctx) {
 				at = mem.site.(ssa.Instruction)
 			}
 			after := topCall != nil && !canReach(at, topCall)
+			// the check is passed on every way to a successful return: its loop (or the call of
+			// the helper holding it) cannot be bypassed
+			gate := at
+			if mem.site == nil {
+				if h := loopHeaders(f)[mu.Block()]; h != nil {
+					gate = h.Instrs[0]
+				}
+			}
+			_, bypass := existsPath(pathQuery{from: entry(fn), avoid: func(x ssa.Instruction) bool { return x == gate }, edgeOK: notErrorEdge, target: func(x ssa.Instruction) bool {
+				r, ok := x.(*ssa.Return)
+				return ok && isSuccessReturn(r)
+			}})
 			// which list is ranged over
 			listT := ""
 			if i := strings.Index(key, "[phi("); i > 0 {
@@ -496,6 +508,7 @@ func c20d(c *Ctx) {
 			case strings.HasSuffix(key, ".Name") && strings.Contains(listT, ".Texts"):
 				nText++
 				c.Check(guard, name+"/text-names/check-before-insert", pos, "text name inserted only after the lookup of the same name failed", "text name "+pretty(key)+" inserted without a failed lookup of the same name")
+				c.Check(!bypass, name+"/text-names/not-bypassed", pos, "no successful return without the text clash check", "ParseProgram can return successfully without having run the text name clash check (whether a clash is reported would depend on what else is in the file)")
 				c.Check(after, name+"/text-names/after-hoisting", pos, "the clash check runs after all statements were parsed (all hoisted texts exist)", "the text clash check can run before parsing is complete")
 				okInline, okExplicit := false, false
 				for _, st := range storesToField(fn, "ast", "Program", "Texts") {
@@ -511,6 +524,7 @@ func c20d(c *Ctx) {
 			case strings.HasSuffix(key, ".Name.Value") && (strings.Contains(listT, ".TopLevelStatements") || strings.Contains(key, "MovementStatement")):
 				nMove++
 				c.Check(guard, name+"/movement-names/check-before-insert", pos, "movement name inserted only after the lookup of the same name failed", "movement name "+pretty(key)+" inserted without a failed lookup of the same name")
+				c.Check(!bypass, name+"/movement-names/not-bypassed", pos, "no successful return without the movement clash check", "ParseProgram can return successfully without having run the movement name clash check (whether a clash is reported would depend on what else is in the file)")
 				c.Check(after, name+"/movement-names/after-hoisting", pos, "the clash check runs after all statements were parsed", "the movement clash check can run before parsing is complete")
 				okInline := false
 				for _, st := range storesToField(fn, "ast", "Program", "TopLevelStatements") {
